@@ -84,6 +84,22 @@ contract(f"{LC}::EZPackOverlay._verify_signature", "_verify_signature",
          note="valid only if the signature covers every byte before it; the remainder handed to the payload decoders is a "
               "sub-slice of the signed region")
 
+contract(f"{LC}::EZPackOverlay._verify_signature", "_verify_signature.second-datagram-is-checked-too",
+         vars={"self": OVERLAY, "pk0": BYTES, "pk": BYTES, "data0": BYTES, "data": BYTES,
+               "auth0": OBJ("ipv8/messaging/payload_headers.py::BinMemberAuthenticationPayload", public_key_bin=EXPR("pk0")),
+               "auth": OBJ("ipv8/messaging/payload_headers.py::BinMemberAuthenticationPayload", public_key_bin=EXPR("pk"))},
+         requires=["uf_bool('valid_public_key', pk)", "len(pk) > 0", "uf_bool('valid_public_key', pk0)", "len(pk0) > 0"],
+         call="verify_second(self, auth0, data0, auth, data)", raises=[],
+         ensures=["implies(result[0], Sig(pk, signed_part(data, siglen(pk)), sig_part(data, siglen(pk))))"],
+         note="history of two datagrams (any first one, also from the same key and with the same trailing signature bytes): the verdict "
+              "for the second is about ITS bytes - no verdict is carried over between datagrams")
+
+
+def verify_second(self, auth0, data0, auth, data):
+    self._verify_signature(auth0, data0)
+    return self._verify_signature(auth, data)
+
+
 FUNC = CALLABLE("func", returns=ANY, raises=("Exception",))
 for _wname in ("lazy_wrapper", "lazy_wrapper_wd"):
     for _iname, _payloads, _extra in (
